@@ -138,7 +138,11 @@ func (f *frame) trans(e CE, env *Env) TV {
 				}
 			}
 		}
-		body := f.transBool(x.Body, ne)
+		f.boundDepth++
+		body := func() string {
+			defer func() { f.boundDepth-- }()
+			return f.transBool(x.Body, ne)
+		}()
 		qn := "exists"
 		if x.Forall {
 			qn = "forall"
@@ -805,7 +809,11 @@ func (f *frame) defineSpec(sp *specInfo, name, rs string) (ok bool) {
 	}()
 	vars, binds := f.bindParams(sp.c.Params, sp.pkg, true, nil)
 	ne := &Env{f: f, vars: vars, st: nil, pkg: sp.pkg, specDepth: 1}
-	body := f.trans(sp.c.Body, ne)
+	f.boundDepth++
+	body := func() TV {
+		defer func() { f.boundDepth-- }()
+		return f.trans(sp.c.Body, ne)
+	}()
 	kw := "define-fun"
 	if sp.rec {
 		kw = "define-fun-rec"
